@@ -3,7 +3,7 @@ from props.fsmlib import *
 
 def cases(tier):
     L = []
-    fams = ['f5', 'fsel', 'foroot_small'] if tier == 'quick' else THOROUGH
+    fams = ['f5', 'f10', 'foroot_small'] if tier == 'quick' else THOROUGH
     T = 1 if tier == 'quick' else 3
     for fam in fams:
         small = fam.endswith('_small'); fam = fam.replace('_small', '')
@@ -15,7 +15,7 @@ def cases(tier):
         L.append(fsm_case('C13', fx, 'api', ['ENTRY=9', 'P_C13A'], timeout=300 * T))
         # (b) single pending request, guards approve: answers inside guards vs what then happens
         for k in ((1, 2, 3, 4) if not small else ()):
-            L.append(fsm_case('C13', fx, 'imm%d' % k, ['P_C13', 'ENTRY=2', 'KIND=%d' % k, 'CB_BUDGET=0', 'NO_CANCEL'], timeout=600 * T, witness=(k == 1)))
+            L.append(fsm_case('C13', fx, 'imm%d' % k, ['P_C13', 'ENTRY=2', 'KIND=%d' % k, 'CB_BUDGET=0', 'NO_CANCEL'] + (['C13_EVERY_GUARD'] if tier == 'thorough' and fam == 'f5' else []), timeout=600 * T, witness=(k == 1)))
         # (c) nothing pending inside update callbacks
         L.append(fsm_case('C13', fx, 'update', ['P_C13', 'ENTRY=1', 'CB_BUDGET=0'], timeout=300 * T, witness=False))
         # resume(region) activates what isResumable reported
